@@ -388,7 +388,7 @@ Theorem fix_if_return_partial p :
   fir_safe (fuel_of p) p = true -> equiv p (fix_if_return_model p).
 Proof. apply fir_partial_n. Qed.
 
-Definition st0 : state := mkSt (fun _ => VBool false) 0 [].
+Definition st0 : state := mkSt [] 0 [].
 Definition o_obj : oracle := fun _ => VObj true 0.      (* every opaque call returns a truthy non-bool (5) *)
 
 Ltac refute_with o st p q :=
@@ -711,9 +711,9 @@ Lemma er_assign_ret x r0 : sim2 [SAssign x r0; SReturn (RVar x)] [SReturn r0].
 Proof.
   split; intros o st r Hr.
   - apply runs_assign in Hr. apply runs_ret in Hr. subst r. eexists; split; [apply runs_ret; reflexivity|].
-    unfold obs. simpl. unfold upd. rewrite Nat.eqb_refl. reflexivity.
+    unfold obs. simpl. rewrite get_upd_same. reflexivity.
   - apply runs_ret in Hr. subst r. eexists; split; [apply runs_assign, runs_ret; reflexivity|].
-    unfold obs. simpl. unfold upd. rewrite Nat.eqb_refl. reflexivity.
+    unfold obs. simpl. rewrite get_upd_same. reflexivity.
 Qed.
 
 Lemma er_go_sound (rec : list stmt -> option (list stmt)) x :
